@@ -214,6 +214,26 @@ func scalarPool(fd protoreflect.FieldDescriptor, cur protoreflect.Value) []scala
 		if len(c) > 1 {
 			out = append(out, scalarAlt{"last char dropped", protoreflect.ValueOfString(c[:len(c)-1])})
 		}
+		// every string of length <= 2 over the characters a hex / decimal parser treats
+		// specially, and the short prefixes of the current value
+		short := map[string]bool{"": true, "0x": true, "zz": true}
+		chars := []string{"0", "x", "X", "a", "-", "+", " ", "."}
+		var cands []string
+		for _, a := range chars {
+			cands = append(cands, a)
+			for _, b := range chars {
+				cands = append(cands, a+b)
+			}
+		}
+		for k := 1; k <= 3 && k < len(c); k++ {
+			cands = append(cands, c[:k])
+		}
+		for _, x := range cands {
+			if !short[x] && x != c {
+				short[x] = true
+				out = append(out, scalarAlt{fmt.Sprintf("=%q", x), protoreflect.ValueOfString(x)})
+			}
+		}
 	}
 	return out
 }
